@@ -355,6 +355,7 @@ class Engine:
             s1 = st.copy()
             s1.known[d] = ('eq', v)
             s1.conds.append((d, v))
+            self._learn_eq(s1, d, v)
             out.append((s1, fn, fid, b))
         if is_bool:
             # otherwise == the remaining boolean value
@@ -363,6 +364,7 @@ class Engine:
                 s1 = st.copy()
                 s1.known[d] = ('eq', rest[0])
                 s1.conds.append((d, rest[0]))
+                self._learn_eq(s1, d, rest[0])
                 out.append((s1, fn, fid, otherwise))
         else:
             if fn.blocks[otherwise]['term']['k'] != 'unreachable' or fn.blocks[otherwise]['stmts']:
@@ -371,6 +373,23 @@ class Engine:
                 s1.conds.append((d, ('not', tuple(vals))))
                 out.append((s1, fn, fid, otherwise))
         return self._prune_unreachable(fn, out)
+
+    def _learn_eq(self, st, atom, value):
+        """an equality atom established as true between an unknown value and a value of known variant also fixes the unknown's
+        discriminant (x == Some(..) makes a later `match x` take the Some arm): keeps paths with contradictory tests of one value out"""
+        if atom[0] != 'eq' or value not in (1, True):
+            return
+        for x, y in ((atom[1], atom[2]), (atom[2], atom[1])):
+            if y[0] == 'agg' and y[1] == 'adt' and y[3] is not None and x[0] != 'agg':
+                d = CORE_VARIANT_DISCR.get(y[3])
+                if d is None:
+                    try:
+                        d = self.facts.variant_discr(y[2], y[3])
+                    except Exception:
+                        d = None
+                if d is not None and ('discr', x) not in st.known:
+                    st.known[('discr', x)] = ('eq', d)
+                    st.conds.append((('discr', x), d))        # a derived condition of the path, visible to the rules like a tested one
 
     def _prune_unreachable(self, fn, out):
         res = []
@@ -707,11 +726,12 @@ class Engine:
         s1 = st.copy()
         s1.known[v] = ('eq', 1)
         s1.conds.append((v, 1))
+        self._learn_eq(s1, v, 1)
         st.known[v] = ('eq', 0)
         st.conds.append((v, 0))
         return [(s1, not neg), (st, neg)]
 
-    ADAPTER_CONSUMERS = ('for_each', 'any', 'all', 'find', 'position', 'fold', 'try_fold', 'retain', 'retain_mut', 'extend', 'count')
+    ADAPTER_CONSUMERS = ('for_each', 'any', 'all', 'find', 'position', 'fold', 'try_fold', 'retain', 'retain_mut', 'extend', 'count', 'collect')
     ADAPTER_LAZY_CLOSURE = ('filter', 'map', 'flat_map', 'take_while')
     ADAPTER_LAZY_PLAIN = ('cloned', 'copied', 'enumerate', 'rev', 'by_ref')
     ADAPTER_SOURCES = ('iter', 'into_iter', 'iter_mut')
@@ -815,6 +835,15 @@ class Engine:
             if parsed is None or not any(len(s_) == 2 for s_ in parsed[1]):
                 return None
             clo = None
+        elif base == 'collect':
+            # `<chain with closure stages>.collect::<Vec<_> / SmallVec<_>>()`: a fresh list onto which every element the chain yields is pushed
+            dty = fn.local_ty(t['dest']['local']) if not t['dest'].get('proj') else ''
+            if name != 'std::iter::Iterator::collect' or len(args) != 1 or not (dty.startswith('std::vec::Vec<') or dty.startswith('smallvec::SmallVec<')):
+                return None
+            parsed = self._parse_chain(st, args[0])
+            if parsed is None or not any(len(s_) == 2 for s_ in parsed[1]):
+                return None
+            clo = None
         elif base == 'count':
             # only interpreted on constant inputs (partial evaluation): the number of elements the chain yields
             if not self.concrete or 'Iterator' not in name or len(args) != 1:
@@ -840,6 +869,7 @@ class Engine:
         source, stages = parsed
         uid = next(self.uid)
         marker = ('adapter', uid)
+        collected = ('collected', uid) if base == 'collect' else None
         closures = [s_[1] for s_ in stages if len(s_) == 2] + ([clo] if clo is not None else [])
         elems = self._literal_elements(st, source) if (self.unroll or self.concrete) else None
         if base == 'count' and elems is None:
@@ -917,10 +947,11 @@ class Engine:
             if base == 'count':
                 s_.frames[fid][acc_key] = C(s_.frames[fid][acc_key][1] + 1)
                 return cont(s_)
-            if extend:
-                push = 'smallvec::SmallVec::<A>::push' if 'SmallVec' in name else 'std::vec::Vec::<T, A>::push'
+            if extend or collected:
+                sv = ('SmallVec' in name) if extend else dty.startswith('smallvec')
+                push = 'smallvec::SmallVec::<A>::push' if sv else 'std::vec::Vec::<T, A>::push'
                 s_.epoch += 1
-                s_.events.append(('call', push, (args[0], elem), next(self.uid), fn.name, t['span'], (), s_.epoch))
+                s_.events.append(('call', push, (args[0] if extend else ('ref', collected), elem), next(self.uid), fn.name, t['span'], (), s_.epoch))
                 return cont(s_)
             if in_place:
                 # Vec::retain: one arbitrary element, kept in place (same relative order) iff the predicate holds
@@ -1013,6 +1044,8 @@ class Engine:
                 return C(base == 'all')
             if base in ('find', 'position'):
                 return mk_adt(OPTION, 'None', [])
+            if collected:
+                return collected
             if base in ('for_each',) or in_place or extend:
                 return UNIT
             acc = s_.frames[fid][acc_key] if elems is not None else ('lv', marker, acc_key)
@@ -2020,7 +2053,25 @@ def m_slice_get(eng, st, args, info):
     return None
 
 
+def m_prim_ref_op(eng, st, args, info):
+    """operator impls of the primitive integers on references (`u8 | &u8`, `&u64 & u64`, ...): the operation on the referents"""
+    name = info['name']
+    m_ = re.match(r'^<&?(\w+) as std::ops::(\w+)<&?\w+>>::\w+$', name)
+    if not m_ or len(args) != 2:
+        return None
+    ty, tr = m_.group(1), m_.group(2)
+    op = {'BitOr': 'BitOr', 'BitAnd': 'BitAnd', 'BitXor': 'BitXor', 'Add': 'Add', 'Sub': 'Sub', 'Mul': 'Mul', 'Shl': 'Shl', 'Shr': 'Shr'}.get(tr)
+    if op is None or ty not in INT_BITS:
+        return None
+    tys = info['term'].get('arg_tys') or ['', '']
+    vals = []
+    for a, aty in zip(args, tys):
+        vals.append(_deref_arg(eng, st, a) if aty.startswith('&') else a)
+    return [(st, binop(op, vals[0], vals[1], ty))]
+
+
 PATTERN_MODELS = [
+    (re.compile(r'^<&?(u8|u16|u32|u64|usize|i8|i16|i32|i64|isize) as std::ops::(BitOr|BitAnd|BitXor|Add|Sub|Mul|Shl|Shr)<&?\w+>>::\w+$'), m_prim_ref_op),
     (re.compile(r'^core::slice::<impl \[T\]>::get(::<.*>)?$'), m_slice_get),
     (re.compile(r'^core::num::<impl u8>::to_ascii_lowercase$'), m_ascii_case(True)),
     (re.compile(r'^core::num::<impl u8>::to_ascii_uppercase$'), m_ascii_case(False)),
